@@ -37,7 +37,7 @@ pub const BEHAVIOURS: [&str; 8] = [
 pub enum Step {
     /// node `owner` creates an invitation
     Invite { owner: usize },
-    /// node `node` accepts invitation `inv` (tamper: 0 none, 1 truncated, 2 random bytes, 3 one byte flipped)
+    /// node `node` accepts invitation `inv` (tamper: 0 none, 1 truncated, 2 random bytes, 3 one byte flipped, 4 names another application)
     Accept { node: usize, inv: usize, tamper: usize },
     /// two honest nodes connect with invitation `inv` (owner side / invitee side), all streams relayed
     ConnectInvite { owner: usize, invitee: usize, inv: usize },
@@ -97,7 +97,7 @@ pub fn generate(seed: u64, property: &str, thorough: bool) -> Trace {
                     steps.push(Step::Invite { owner: rw.usize(nodes) });
                     invs += 1;
                 }
-                1 => steps.push(Step::Accept { node: rw.usize(nodes), inv: rw.usize(invs), tamper: if rw.chance(2, 3) { 0 } else { 1 + rw.usize(3) } }),
+                1 => steps.push(Step::Accept { node: rw.usize(nodes), inv: rw.usize(invs), tamper: if rw.chance(2, 3) { 0 } else { 1 + rw.usize(4) } }),
                 2 => steps.push(Step::ConnectInvite { owner: rw.usize(nodes), invitee: rw.usize(nodes), inv: rw.usize(invs) }),
                 3 => steps.push(Step::ConnectAllowed { a: rw.usize(nodes), b: rw.usize(nodes) }),
                 4 => steps.push(Step::Attack {
@@ -383,7 +383,14 @@ fn exec_step(c: &mut Ctx, st: &Step, property: &str) -> Result<(), String> {
                 return Ok(());
             }
             let mut b = bytes.clone();
-            match tamper % 4 {
+            match tamper % 5 {
+                4 => {
+                    // the same invitation, naming another application
+                    if let Ok(mut inv) = bincode::deserialize::<dv::Invite>(&b) {
+                        inv.application = format!("{} of somebody else", inv.application);
+                        b = bincode::serialize(&inv).unwrap_or(b);
+                    }
+                }
                 1 => b.truncate(b.len() / 2),
                 2 => b = (0..b.len()).map(|i| (i * 37 + 11) as u8).collect(),
                 3 => {
@@ -395,8 +402,11 @@ fn exec_step(c: &mut Ctx, st: &Step, property: &str) -> Result<(), String> {
             let Some(side) = c.sides[node].as_mut() else { return Ok(()) };
             let pm = &mut side.pm;
             let r = c.w.nodes[node].drive(async { pm.accept_invite(&b).await }).map_err(|e| format!("{e:?}"))?;
-            c.w.log.sched(format!("accept n{node} tamper={} ok={}", tamper % 4, r.is_ok()));
-            c.w.fault(&format!("invite_bytes_tamper_{}", tamper % 4));
+            c.w.log.sched(format!("accept n{node} tamper={} ok={}", tamper % 5, r.is_ok()));
+            c.w.fault(&format!("invite_bytes_tamper_{}", tamper % 5));
+            if tamper % 5 == 4 && r.is_ok() {
+                c.w.violation("C19", "invitation-accepted-for-another-application", format!("n{node} accepted an invitation that names another application"));
+            }
             c.any = true;
         }
         Step::ConnectInvite { owner, invitee, inv } => {
